@@ -37,7 +37,9 @@ from .common import Ctx, Failure, LeanStatus, Mismatch, Result
 PATH_KEYS = ("schema_path", "queries_path", "target_package_path", "base_client_file_path")
 ENVIRON = {"C17_TOKEN": "secret-token", "C17_EMPTY": ""}
 
-TRIGGERS = ["fragmentsModuleNameUnchecked", "invalidSchemaAssumedValid", "schemaBuildTypeError",
+# (C17-F2 `fragmentsModuleNameUnchecked` was repaired by /repo 0686a80: no trigger any more, its old region is judged
+#  like every other bad module name; its witnesses stay in corpus/C17 and are replayed on every run)
+TRIGGERS = ["invalidSchemaAssumedValid", "schemaBuildTypeError",
             "fragmentGenErrorAfterWrites", "noGraphqlFiles", "baseClassSubstring"]
 
 
@@ -219,6 +221,14 @@ def tool(sec: Dict[str, Any]) -> Dict[str, Any]:
     return {"tool": {"ariadne-codegen": sec}}
 
 
+def in_old_f2_region(values: List[Any]) -> bool:
+    """the input lies in the region of the REPAIRED finding C17-F2 (fragments_module_name unusable as a module name):
+    only counted, to show that the generators exercise the region the theorem now covers"""
+    import keyword
+
+    return any(isinstance(n, str) and (not n.isidentifier() or keyword.iskeyword(n)) for n in values)
+
+
 def client_bases(W: Dict[str, str]) -> List[Tuple[str, Dict[str, Any]]]:
     return [
         ("files", {"schema_path": W["schema_file"], "queries_path": W["queries_file"], "target_package_path": W["out"]}),
@@ -291,12 +301,10 @@ def client_violations() -> List[Viol]:
         for bad, ok in D.NAME_POOL:
             if ok:
                 continue
-            trig = "fragmentsModuleNameUnchecked" if key == "fragments_module_name" else None
-
             def mut(s, W, key=key, bad=bad):
                 s[key] = bad
                 return bad
-            V.append((f"bad-name:{key}={bad!r}", mut, "InvalidConfiguration", trig))
+            V.append((f"bad-name:{key}={bad!r}", mut, "InvalidConfiguration", None))
     for bad, ok in D.NAME_POOL:
         if ok:
             continue
@@ -531,6 +539,12 @@ def judge_settings(ctx: Ctx, st: Optional[LeanStatus], res: Result, root: Path, 
                 "deprecatedBoolComments": obs["deprecatedBoolComments"], "pure": obs["pure"]}
         res.seen([case["kind"], shown["cfg"]], nontrivial=True)
         res.count("settings:" + case["kind"] + (":accepted" if "ok" in impl["result"] else ":" + impl["result"]["err"]["cls"]))
+        if case["kind"] == "client" and in_old_f2_region(find_section(case["cfg"]).get("fragments_module_name", [])):
+            res.count("settings:inside-old-C17-F2-region")
+            emsg = obs["result"]["err"].get("msg", "") if "err" in obs["result"] else ""
+            if "python identifier" in emsg and any(isinstance(n, str) and f"name {n} cannot" in emsg
+                                                   for n in find_section(case["cfg"]).get("fragments_module_name", [])):
+                res.count("settings:rejected-by-the-fragments_module_name-check")
         if model is not None:
             m = model[i]
             mres = m["result"]
@@ -846,12 +860,6 @@ def run_plan(root: Path, plan: Dict[str, Any]) -> Dict[str, Any]:
     sobs = settings_obs("client" if strategy == "client" else "schema", copy.deepcopy(cfg))
     settings_ok = "ok" in sobs.get("result", {})
     trig: List[str] = []
-    if settings_ok:
-        so = sobs["result"]["ok"]
-        if strategy == "client":
-            n = so["fragments_module_name"]
-            if not n.isidentifier() or n in __import__("keyword").kwlist:
-                trig.append("fragmentsModuleNameUnchecked")
     if sfacts["buildError"] is None and sfacts["trueErrors"] > 0 and not facts.get("replaces"):
         trig.append("invalidSchemaAssumedValid")
     if sfacts["buildError"] is not None:
@@ -930,6 +938,9 @@ PIPELINE_CFG_VIOLATIONS: List[Tuple[str, Dict[str, Any], str, Optional[str]]] = 
     ("client-file-name-bad", {"client_file_name": "a-b"}, "InvalidConfiguration", "a-b"),
     ("enums-module-bad", {"enums_module_name": "not-valid"}, "InvalidConfiguration", "not-valid"),
     ("inputs-module-bad", {"input_types_module_name": "1x"}, "InvalidConfiguration", "1x"),
+    ("fragments-module-bad", {"fragments_module_name": "not-valid"}, "InvalidConfiguration", "not-valid"),   # C17-F2 (fixed)
+    ("fragments-module-keyword", {"fragments_module_name": "class"}, "InvalidConfiguration", "class"),      # C17-F2 (fixed)
+    ("fragments-module-space", {"fragments_module_name": "a b"}, "InvalidConfiguration", "a b"),            # C17-F2 (fixed)
     ("package-path-missing", {"target_package_path": "<ROOT>/nodir"}, "InvalidConfiguration", "/nodir"),
     ("comment-mode-unknown", {"include_comments": "sometimes"}, "InvalidConfiguration", "sometimes"),
     ("scalar-without-type", {"scalars": {"DT": {"parse": "m.p"}}}, "MissingConfiguration", "type"),
@@ -1024,7 +1035,7 @@ def fixed_plans() -> List[Dict[str, Any]]:
     plans.append(P("config/fragments-module-bad+preexisting", exp_invalid("config", "InvalidConfiguration", "not-valid"), preexisting="files",
                    cfg={"fragments_module_name": "not-valid"}, facts={"code_error": [["resultTypes:get_u.py", "InvalidInput"]]}))
     plans.append(P("config/fragments-module-with-space", exp_invalid("config", "InvalidConfiguration", "a b"), preexisting="files",
-                   cfg={"fragments_module_name": "a b"}))   # even the emitted `from .a b import ...` gets through: a broken package, no error
+                   cfg={"fragments_module_name": "a b"}))   # before 0686a80 even the emitted `from .a b import ...` got through: a broken package, no error
     plans.append(P("config/base-class-prefix-only", exp_invalid("config", "InvalidConfiguration", "MyBase"),
                    cfg={"base_client_name": "MyBase", "base_client_file_path": "<ROOT>/custom_base.py"}))
     for label, over, mention in (("bad-suffix", {"target_file_path": "<ROOT>/out/schema.txt"}, "schema.txt"),
@@ -1223,6 +1234,8 @@ def judge_plans(ctx: Ctx, st: Optional[LeanStatus], res: Result, plans: List[Dic
         res.count(f"{tag}:preexisting:" + plan.get("preexisting", "none"))
         for t in active:
             res.count(f"{tag}:inside-trigger:" + t)
+        if strategy == "client" and in_old_f2_region([(plan.get("cfg") or {}).get("fragments_module_name")]):
+            res.count(f"{tag}:inside-old-C17-F2-region")
         if i in model:
             mv = unroot(model_view(model[i], strategy))
             if not same_view(iv, mv):
@@ -1410,6 +1423,13 @@ def run(ctx: Ctx, st: Optional[LeanStatus]) -> Result:
         plans += extra
     judge_plans(ctx, st, res, plans)
     res.extra["plans"] = len(plans)
+    res.extra["old_C17_F2_region"] = {
+        "note": "inputs with a fragments_module_name unusable as a module name (region of the finding repaired by 0686a80, now inside C17_partial)",
+        "settings_cases": res.distribution.get("settings:inside-old-C17-F2-region", 0),
+        "settings_cases_where_that_check_fired": res.distribution.get("settings:rejected-by-the-fragments_module_name-check", 0),
+        "pipeline_plans": res.distribution.get("pipeline:inside-old-C17-F2-region", 0),
+        "of_settings_cases": sum(v for k, v in res.distribution.items() if k.startswith("settings:client:") and isinstance(v, int)),
+        "of_pipeline_plans": len(plans)}
     res.extra["invalid_schema_classes"] = len(D.INVALID_SCHEMAS)
     res.extra["invalid_operation_classes"] = len(D.INVALID_OPERATIONS)
     res.oracle_only += [
